@@ -65,8 +65,12 @@ def run(ctx):
         behs, exh = BR.behaviours(ctx, name, cfg, 3 if cfg.T // cfg.QStep <= 4 else 2,
                                   80 if quick else 600, ctx.seed)
         traces = []
+        offs = cat[name].offsets()
         for beh in behs:
             qs = BR.history(beh)
+            # the model is translation invariant: the real object is placed at different origins in rotation
+            # (interval starting at, centred at, left of zero, far right of zero)
+            cfg = cat[name].shifted(offs[(k // len(combos) + k) % len(offs)])
             steps = BR.structural_replay(ctx, name, cfg, beh, "C03")
             if steps is not None:
                 traces.append((qs, BR.make_trace(cfg, steps)))
@@ -75,8 +79,8 @@ def run(ctx):
             fails = P.check_chen(cfg, qs, P.SHAPES[sn], lv, rnd, wrapper=w, n_triples=6)
             fails += P.check_chen_pieces(cfg, qs, P.SHAPES["matrix"], "davie" if k % 2 else "foster")
             nontriv = any(h["nn"] > 1 for h in beh["hist"])
-            ctx.case((name, str(qs), sn, lv, w), nontrivial=nontriv, trace=steps is not None,
-                     sample=dict(cfg=name, history=qs, shape=sn, levy=lv, wrapper=w))
+            ctx.case((name, str(qs), sn, lv, w, cfg.off), nontrivial=nontriv, trace=steps is not None,
+                     sample=dict(cfg=name, history=qs, shape=sn, levy=lv, wrapper=w, origin=cfg.t(0)))
             for kind, det in fails[:3]:
                 ctx.violation(dict(cfg=name, kind=kind, levy=lv, shape=sn, wrapper=w),
                               f"{kind} fails after history {qs}: {det}",
